@@ -162,6 +162,9 @@ func (s *Solver) Check(timeoutMs int) string {
 	res := ""
 	for _, l := range lines {
 		if strings.Contains(l, "(error") {
+			// some command since the last answer was rejected (possibly an assertion): the process state can no longer be
+			// trusted to mirror ours, so start over; users notice the new generation and re-assert their state
+			s.restart()
 			return "error: " + l
 		}
 		switch l {
